@@ -185,6 +185,37 @@ def search(seed, tier):
     return found
 
 
+def runtime_checks():
+    """exact observations on the real code, every run: boundary data of very different magnitudes on the two radii, huge raw
+    network outputs - the constrained values stay exact"""
+    import torch
+    from neurodiffeq.conditions import DirichletBVPSpherical, DirichletBVPSphericalBasis
+    from neurodiffeq.networks import FCNN
+    bad = []
+    torch.manual_seed(5)
+    n = 4
+    th, ph = torch.rand(n, 1) * 3, torch.rand(n, 1) * 6
+    full = lambda v: torch.full((n, 1), float(v))
+    net = FCNN(3, 1, hidden_units=(6,))
+    for fmag, gmag in ((1.0e15, 1.0), (1.0, 1.0e15), (3.0e9, -2.0e-6)):
+        f = lambda a, b, m=fmag: m * (1 + 0.1 * torch.sin(a))
+        g = lambda a, b, m=gmag: m * (1 + 0.1 * torch.cos(b))
+        c = DirichletBVPSpherical(0.5, f, 2.0, g)
+        for nm, r_, want in (('u(r_0) = f', 0.5, f(th, ph)), ('u(r_1) = g', 2.0, g(th, ph))):
+            got = c.enforce(net, full(r_), th, ph).detach()
+            if not torch.allclose(got, want, rtol=1e-13, atol=0):
+                bad.append(dict(case='boundary data of very different magnitudes', f_scale=fmag, g_scale=gmag, violated=nm,
+                                got=got.reshape(-1).tolist(), want=want.reshape(-1).tolist()))
+        R0, R1 = torch.tensor([fmag, 1.0, -fmag]), torch.tensor([gmag, -2.0, gmag])
+        cb = DirichletBVPSphericalBasis(0.5, R0, 2.0, R1)
+        netK = FCNN(1, 3, hidden_units=(6,))
+        for nm, r_, want in (('R(r_0) = R_0', 0.5, R0), ('R(r_1) = R_1', 2.0, R1)):
+            got = cb.enforce(netK, full(r_)).detach()
+            if not torch.allclose(got, want.expand(n, 3), rtol=1e-13, atol=0):
+                bad.append(dict(case='coefficient data of very different magnitudes', violated=nm, got=got[0].tolist(), want=want.tolist()))
+    return bad
+
+
 def check(tier, seed):
     from ..calcprop import check_calc
     return check_calc(sys.modules[__name__], tier, seed)
